@@ -120,9 +120,16 @@ func c20Child(args []string) error {
 		}
 		logf := filepath.Join(tmp, fmt.Sprintf("log%d", k))
 		os.WriteFile(logf, nil, 0o644)
-		target := filepath.Join(tmp, fmt.Sprintf("file%d.txt", k))
+		// one output file per goroutine, each in a directory of its own (a configuration writing into
+		// several projects): the probes are per cache, not per directory
 		content := []byte("package x // untouched\n")
-		os.WriteFile(target, content, 0o644)
+		targets := make([]string, len(sc.Reqs))
+		for g := range sc.Reqs {
+			td := filepath.Join(tmp, fmt.Sprintf("out%d", k), fmt.Sprintf("project%d", g))
+			os.MkdirAll(td, 0o755)
+			targets[g] = filepath.Join(td, "file.txt")
+			os.WriteFile(targets[g], content, 0o644)
+		}
 		os.Setenv("PATH", dir)
 		os.Setenv("VH_LOG", logf)
 		os.Setenv("VH_DIR", dir)
@@ -146,7 +153,7 @@ func c20Child(args []string) error {
 				}()
 				<-start
 				for ri, f := range sc.Reqs[g] {
-					err := fmts.FormatFile(generator.Format(f), target)
+					err := fmts.FormatFile(generator.Format(f), targets[g])
 					res.Errs[g][ri] = err != nil
 				}
 			}(g)
@@ -169,8 +176,12 @@ func c20Child(args []string) error {
 				}
 			}
 		}
-		after, _ := os.ReadFile(target)
-		res.Untouched = bytes.Equal(after, content)
+		res.Untouched = true
+		for _, t := range targets {
+			if after, _ := os.ReadFile(t); !bytes.Equal(after, content) {
+				res.Untouched = false
+			}
+		}
 		if err := enc.Encode(res); err != nil {
 			return err
 		}
